@@ -59,7 +59,7 @@ def run_suite(ctx, only_best=False):
     rng = ctx.rng
     ctx.rule("populations: all cost vectors of length 1..L over the alphabet {-inf,-1,0,0,2.5,+inf} (ties included; L=4 quick, 6 thorough; "
              "multisets enumerated with every order) plus random sizes up to 200, plus vectors over pools of neighbouring doubles (0 / 1e-17 / 2e-17, ±5e-324, 1 ± 1 ulp, −1 ± 1 ulp, 1e16 + {0,2,4}, 1e308 / next / inf, 0.1+0.2 / 0.3); × all n in 0..size × both directions × every helper and combinator; "
-             "non-trivial = population of size ≥ 2 (size-1 cases counted as trivial); distinct by (helper, direction, cost vector, n)")
+             "after a subset of cases the caller uses up a returned list (reverse + pop) and asks again: same answer; non-trivial = population of size ≥ 2 (size-1 cases counted as trivial); distinct by (helper, direction, cost vector, n)")
     L = 6 if ctx.thorough else 4
     pops = []
     for k in range(1, L + 1):
@@ -100,6 +100,27 @@ def run_suite(ctx, only_best=False):
                     ctx.case(("sortIdx-rel", d, tuple(costs)), nontrivial=nontriv, kind="sortIdx-relational")
             else:
                 ctx.fail("C16/sort_by_cost_indexes/raises", repr(r), SUITE, base)
+            # what a helper returns belongs to the caller: using it up (pop / reverse / clear) must not change what ANY later call answers
+            # (a ranking memoised across calls and handed out by reference would)
+            if len(costs) >= 2 and (len(costs) <= 3 or rng.random() < 0.05):
+                for name, f, args in (("sort_by_cost_indexes", helpers.sort_by_cost_indexes, (tt,)), ("sort_by_cost", helpers.sort_by_cost, (tt,)),
+                                      ("best_agents_indexes", helpers.best_agents_indexes, (len(costs), tt)), ("worst_agents", helpers.worst_agents, (len(costs), tt))):
+                    ok1, r1 = call(f, agents, *args)
+                    if not ok1 or not isinstance(r1, list):
+                        continue
+                    snap = [x if isinstance(x, int) else id(x) for x in r1]
+                    r1.reverse()
+                    if r1:
+                        r1.pop()
+                    ok2, r2 = call(f, agents, *args)
+                    again = [x if isinstance(x, int) else id(x) for x in r2] if ok2 and isinstance(r2, list) else None
+                    ctx.case(("fresh-result", name, d, tuple(costs)), nontrivial=True, kind="result-belongs-to-caller")
+                    if again != snap:
+                        ctx.fail(f"C16/{name}/answer-changes-after-the-caller-used-up-an-earlier-result", f"first {snap!r}, after consuming it {again!r} on costs {costs}", SUITE,
+                                 {**base, "helper": name})
+                    others_ok, rb = call(helpers.best_agents, agents, 1, tt)
+                    if others_ok:
+                        check_selection(ctx, d, costs, 1, rb, "best_agents", {**base, "n": 1, "after": f"consuming a result of {name}"})
             for n in ns:
                 meta = {**base, "n": n, "nt": nontriv}
                 for name, f, op in (("best_agents", helpers.best_agents, "sel.best"), ("worst_agents", helpers.worst_agents, "sel.worst")):
